@@ -851,6 +851,9 @@ func color(tokens []Token, _ string) pr.DeclaredValue {
 	}
 	token := tokens[0]
 	result := pa.ParseColor(token)
+	if result.IsNone() { // not a color: the declaration is invalid
+		return nil
+	}
 	if result.Type == pa.ColorCurrentColor {
 		return pr.Inherit
 	} else {
